@@ -42,10 +42,24 @@ def cases(tier, seed):
             if rec[2] and rng.random() < 0.5:
                 rec[2] = False
         yield {"c": cd, "inputs": (False if nbb else rng.random() < 0.5)}
+    # histories on ONE object: a first call, then an edit that keeps the node / edge / output counts (an output mark
+    # moves, an edge is re-routed), then the call under test
+    for t in ("and", "or"):
+        cd = {"name": "h", "nodes": [["a", "input", False], ["b", "input", False], ["g1", t, True], ["g2", "not", False], ["g3", "buf", True]],
+              "edges": [["a", "g1"], ["b", "g1"], ["a", "g2"], ["g2", "g3"]], "bbs": {}}
+        for flag in (False, True):
+            yield {"c": cd, "inputs": flag, "pre": [["set_output", "g3", False], ["set_output", "g2", True], ["set_output", "g2", False], ["set_output", "a", True]]}
+            yield {"c": cd, "inputs": flag, "pre": [["disconnect", "g2", "g3"], ["connect", "b", "g3"]]}
 
 
 def run_case(case):
     c = circ.build(case["c"])
+    if case.get("pre"):
+        c.remove_unloaded(inputs=case["inputs"])
+        for op in case["pre"]:
+            getattr(c, op[0])(*op[1:])
+            c_probe = c.copy()
+            c_probe.remove_unloaded(inputs=case["inputs"])  # (calls on copies must not matter either)
     flag = case["inputs"]
     g0 = c.graph.copy()
     ty = {n: g0.nodes[n].get("type") for n in g0}
